@@ -300,6 +300,8 @@ def workload(ctx, lentil):
                     b = a + span * rng.uniform(-0.1, 0.9)
                     if rng.random() < 0.3 and cw.size:
                         a = float(cw[int(rng.integers(0, cw.size))])      # exactly on a sample (closed range)
+                    if rng.random() < 0.4 and cw.size:
+                        b = float(cw[int(rng.integers(0, cw.size))])      # upper bound exactly on a sample as well
                     ops.append(['crop', float(a), float(b)])
                     sp.crop(a, b)
                 elif op == 'trim':
